@@ -146,7 +146,8 @@ def sheet_pre_post(rng, p, cells, has_tables, ntables):
         pre.append(("R", DECL))
     pre.append(("S", qn(p, "worksheet"), root_attrs))
     if rng.random() < 0.5:
-        pre += el(p, "sheetViews", [], el(p, "sheetView", [("workbookViewId", "0")]))
+        pre += el(p, "sheetViews", [], el(p, "sheetView", [("workbookViewId", "0")],
+                                          el(p, "extLst", [], el(p, "ext", [("uri", "{y}")])) if rng.random() < 0.4 else ()))
     pre += pads(rng)
     pre.append(("S", qn(p, "sheetData"), []))
     rows = sorted({r for r, _ in cells})
@@ -158,6 +159,21 @@ def sheet_pre_post(rng, p, cells, has_tables, ntables):
     pre.append(("E", qn(p, "sheetData")))
     if rng.random() < 0.3:
         pre += el(p, "sheetProtection", [("sheet", "1")])
+    if rng.random() < 0.3:
+        # a custom view (CT_CustomSheetView) stands BEFORE mergeCells and carries its own copies of
+        # elements that otherwise only follow mergeCells: page margins, set-up, header/footer,
+        # breaks, an extension list
+        view = el(p, "pageMargins", [("left", "0.7"), ("right", "0.7"), ("top", "0.75"), ("bottom", "0.75"),
+                                     ("header", "0.3"), ("footer", "0.3")])
+        if rng.random() < 0.7:
+            view += el(p, "printOptions", [("gridLines", "1")]) + el(p, "pageSetup", [("orientation", "landscape")])
+        if rng.random() < 0.5:
+            view += el(p, "headerFooter", [], el(p, "oddHeader", [], [("T", "&C&A")]))
+        if rng.random() < 0.5:
+            view += el(p, "rowBreaks", [("count", "1")], el(p, "brk", [("id", "5"), ("man", "1")]))
+        if rng.random() < 0.5:
+            view += el(p, "extLst", [], el(p, "ext", [("uri", "{x}")]))
+        pre += el(p, "customSheetViews", [], el(p, "customSheetView", [("guid", "{7F8C0D4B-0000-4000-8000-000000000001}")], view))
     pre += pads(rng)
     post = pads(rng)
     if rng.random() < 0.5:
